@@ -33,6 +33,9 @@ func goid() uint64
 //go:linkname inBubble runtime.simInBubble
 func inBubble() bool
 
+//go:linkname onOwnStack runtime.simOnOwnStack
+func onOwnStack(p uintptr) bool
+
 //go:linkname mapState runtime.simMapState
 var mapState uint64
 
